@@ -244,6 +244,7 @@ class FileStorage(
 
         if stop is None:
             stop = b'\377' * 8
+        self._stop = stop
 
         # Lock the database and set up the temp file.
         if not read_only:
@@ -1453,6 +1454,12 @@ class FileStorage(
                 link_or_copy(file_path, old + file_path[lblob_dir:])
 
     def iterator(self, start=None, stop=None):
+        if self._stop != b'\377' * 8:
+            # Time travel: this storage ends before self._stop (the
+            # iterator's own bound is inclusive).
+            last = p64(max(u64(self._stop) - 1, 0))
+            if stop is None or stop > last:
+                stop = last
         return FileIterator(self._file_name, start, stop)
 
     def lastInvalidations(self, count):
